@@ -178,6 +178,11 @@ def execOp (st : DState) (line : String) : DState × Option (List String) :=
     | none => (st, some ["bad-op"])
     | some k => ({ st with pipes := (pid, k, cid) :: st.pipes.filter (fun e => e.1 != pid),
                            pstate := (pid, ({} : Pipe.State)) :: st.pstate.filter (fun e => e.1 != pid) }, some ["res ok"])
+  | ["race", "tplx", _, _] =>
+    -- first contacts of DIFFERENT exporters: registrations are stores into the map under its write lock (lock_discipline),
+    -- the map only grows (maps_only_grow): neither registration can undo the other
+    (st, some ["res ok lost=[]"])
+  | ["race", "ratex", _, _] => (st, some ["res ok lost=[]"])
   | ["race", "tplatomic", _, _] =>
     -- a re-announcement replaces the template of its key in one step (Netflow.Store.add; Proofs/C06.lean latest_wins):
     -- a lookup between any two steps of another worker's announcement finds the old or the new template
